@@ -838,6 +838,16 @@ func genFacts(p *pkgInfo) string {
 		leanStr(rf.LookupKey), leanStr(rf.CompileArg), leanStr(rf.InsertKey), leanStr(rf.TestKey), leanStr(rf.StoreArg),
 		leanBool(rf.LockPresent), leanBool(rf.UnlockDeferred), leanBool(rf.LoadAfterLock), leanBool(rf.OnlyFreshWritten), leanBool(rf.CopiesOld),
 		leanStr(rf.MustLookupKey), leanStr(rf.MustCompileArg))
+	b.WriteString("/-- every package-level variable of package validate: (file, name) -/\ndef packageVars : List (String × String) := [\n")
+	pvs := packageVars(p)
+	for i, v := range pvs {
+		fmt.Fprintf(&b, "  (%s, %s)", leanStr(v[0]), leanStr(v[1]))
+		if i < len(pvs)-1 {
+			b.WriteString(",")
+		}
+		b.WriteString("\n")
+	}
+	b.WriteString("]\n\n")
 	fmt.Fprintf(&b, "/-- where NewSpecValidator takes the options object of its schema validators from -/\ndef specOptionsOrigin : String := %s\n\n", leanStr(specOptionsOrigin(p)))
 	fmt.Fprintf(&b, "/-- what compileRegexp returns, in source order, and the package-level variables of rexp.go -/\ndef rexpReturns : List String := %s\ndef rexpPkgVars : List String := %s\n\n", leanStrList(rexpReturns(p)), leanStrList(rexpPkgVars(p)))
 	b.WriteString("/-- every mention of a mutex-guarded package-level variable: (variable, function, site, inside a function that takes the lock) -/\n")
@@ -1224,6 +1234,29 @@ func specOptionsOrigin(p *pkgInfo) string {
 		return true
 	})
 	return origin
+}
+
+// packageVars: every package-level variable of the package (file, name): the inventory of process-wide state
+func packageVars(p *pkgInfo) [][2]string {
+	var out [][2]string
+	for _, fn := range p.sortedFiles() {
+		for _, d := range p.files[fn].Decls {
+			gd, ok := d.(*ast.GenDecl)
+			if !ok || gd.Tok != token.VAR {
+				continue
+			}
+			for _, sp := range gd.Specs {
+				if vs, ok := sp.(*ast.ValueSpec); ok {
+					for _, n := range vs.Names {
+						if n.Name != "_" {
+							out = append(out, [2]string{fn, n.Name})
+						}
+					}
+				}
+			}
+		}
+	}
+	return out
 }
 
 // rexpReturns: the return statements of compileRegexp in source order; rexpPkgVars: the package-level variables of rexp.go
